@@ -17,7 +17,7 @@ Example t_neutral_example :
   length pc = length cps /\ length pc = length cps /\ length lv = length cps /\
   seq_wf (length cps) sq /\
   map hardcoded_class cps = pc /\
-  identify_bracket_pairs U32 hardcoded_ds cps sq pc =
+  identify_bracket_pairs U32 hardcoded_ds cps sq pc pc =
     Ok [{| bp_start := 1; bp_end := 4; bp_start_run := 0; bp_end_run := 1 |}] /\
   resolve_neutral U32 hardcoded_ds cps sq lv pc pc = Ok [L; R; BN; R; R; R; R].
 Proof.
